@@ -187,7 +187,7 @@ def verify_unit(name, sources, rlimit=None, keep_dir=None):
     rep = UnitReport(name)
     try:
         tmpl = read_template(name)
-        u = unitmod.build_unit(name, tmpl, sources)
+        u = unitmod.build_unit(name, tmpl, sources, read_template)
     except ExtractError as e:
         rep.error = 'extraction: %s' % e
         return rep
@@ -291,7 +291,7 @@ def dev_main(argv):
     sources, info = load_sources()
     print('expansion: %s' % info)
     if a.no_run:
-        u = unitmod.build_unit(a.unit, read_template(a.unit), sources)
+        u = unitmod.build_unit(a.unit, read_template(a.unit), sources, read_template)
         os.makedirs(a.keep, exist_ok=True)
         with open(os.path.join(a.keep, a.unit + '.rs'), 'w') as fh:
             fh.write(u.text())
